@@ -3,7 +3,7 @@
    ExtrOcamlBasic only. *)
 From Coq Require Import ExtrOcamlBasic List NArith.
 From Coq.Strings Require Import Byte.
-From GM Require Import Codec.Packet Topic.MatchSpec Broker.Backend Broker.BackendSpec Broker.BackendC13 Broker.BackendC08.
+From GM Require Import Codec.Packet Topic.MatchSpec Broker.Backend Broker.BackendSpec Broker.BackendC13 Broker.BackendC08 Broker.BackendLog.
 Extraction Language OCaml.
 Separate Extraction
   Datatypes.length
@@ -16,4 +16,5 @@ Separate Extraction
   BackendSpec.targets_ok BackendSpec.live_copy_ok BackendSpec.qos_ok BackendSpec.resub_ok BackendSpec.unsub_ok
   BackendSpec.retained_ok BackendSpec.retained_wf BackendSpec.replay_ok BackendSpec.sessions
   BackendC13.unique_ok BackendC13.handover_ok
-  BackendC08.offline_queue_ok BackendC08.session_present_ok.
+  BackendC08.offline_queue_ok BackendC08.session_present_ok
+  BackendLog.delivery_ok.
